@@ -8,6 +8,14 @@
 // Part H (explicit-state history search): request histories over {get(b) for b in a colliding set, clear_cache, enable_cache(0/1),
 //   store_only_basic_bins_in_cache(0/1), set_up(G0), set_up(G1), set_up(G2)}; every returned row must equal the direct row of the
 //   geometry that is currently set up.  G1 differs in the projection data, G2 only in the index range of the image.
+//   Extended alphabet (re-configuration of a USED matrix): every public configuration setter of ProjMatrixByBinUsingRayTracing
+//   (set_num_tangential_LORs(1|2|3), set_restrict_to_cylindrical_FOV(!cur), set_use_actual_detector_boundaries(!cur),
+//   set_do_symmetry_*(!cur) x 5), each followed - as the class documentation demands - by set_up with an EQUAL (separately built)
+//   proj-data-info and image of the currently set-up geometry; enable_cache / store_only_basic_bins_in_cache are documented as
+//   callable without set_up and stay separate operations (followed or not by set_up(Gk) within the histories).  The reference model
+//   tracks the current settings; every returned row must equal the row of a freshly built matrix with these settings and the cache
+//   off (symmetries off as well unless use_actual_detector_boundaries is in effect, for which no tie screen exists: then the fresh
+//   matrix has the same symmetry switches, so that both computations are identical).
 // Part I: the same row checks for ProjMatrixByBinUsingInterpolation (its own two switches) - rows with/without symmetries.
 #include "vmc.h"
 #include "stir_small.h"
@@ -285,19 +293,35 @@ struct HSearch
 {
   int id = 0, sym = 31;
   Geo g[3];
-  int depth = 4;
+  int depth = 4;     // depth of the search over the base alphabet (gets, cache operations, set_up(G0|G1|G2))
+  int full_depth = 0;             // depth of the search over the full alphabet (base + setter;set_up(equal geometry) operations)
+  int setters_depth = 0;          // depth of the search over gets + setter;set_up operations, default cache mode (basic bins only)
+  int setters_depth_all_bins = 0; // the same, matrix initially caching all bins
 };
+
+struct HRefSet
+{
+  std::vector<Row> ref;     // per cset bin
+  std::vector<char> usable; // bin exists in the geometry and is not screened for these settings
+};
+static const int N_BASE_OPS = 8, N_EXT_OPS = 10;
+static const char* SETTER_NAME[N_EXT_OPS] = { "set_num_tangential_LORs", "set_num_tangential_LORs", "set_num_tangential_LORs", "set_restrict_to_cylindrical_FOV", "set_use_actual_detector_boundaries",
+                                              "set_do_symmetry_90degrees_min_phi", "set_do_symmetry_180degrees_min_phi", "set_do_symmetry_swap_segment", "set_do_symmetry_swap_s", "set_do_symmetry_shift_z" };
 
 struct HWorld
 {
   HSearch hs;
   g34::Built b[3];
+  g34::Built b2[3];                       // equal, separately built objects (for set_up after a setter)
   std::vector<Bin> cset;                  // colliding set
-  std::vector<Row> ref[3];                // per geometry, per cset bin (empty + invalid flag if the bin does not exist there)
-  std::vector<char> usable[3];            // bin exists in geometry k and is not screened there
+  // reference rows per (geometry, num_tangential_LORs, cylindrical FOV, use_actual_detector_boundaries in effect, symmetry switches of the
+  // fresh matrix: -1 = all off = "direct")
+  std::map<std::tuple<int, int, int, int, int>, HRefSet> refs;
+  bool uadb_resets[3] = { false, false, false }; // a fresh matrix with use_actual_detector_boundaries resets the switch in set_up (compressed data)
   double delta[3];
   std::vector<std::string> opnames;
   int nget = 0;
+  int init_cache = 2; // cache mode of the fresh matrix of a history (2 = the default: basic bins only)
 };
 
 static bool bin_in_range(const ProjDataInfo& p, const Bin& b)
@@ -306,6 +330,34 @@ static bool bin_in_range(const ProjDataInfo& p, const Bin& b)
          && b.axial_pos_num() >= p.get_min_axial_pos_num(b.segment_num()) && b.axial_pos_num() <= p.get_max_axial_pos_num(b.segment_num())
          && b.tangential_pos_num() >= p.get_min_tangential_pos_num() && b.tangential_pos_num() <= p.get_max_tangential_pos_num() && b.timing_pos_num() >= p.get_min_tof_pos_num()
          && b.timing_pos_num() <= p.get_max_tof_pos_num();
+}
+
+// reference rows of the colliding set from a freshly built matrix, cache off; sym < 0: all symmetries off ("direct", needs the tie screen)
+static bool make_refs(vmc::Ctx& ctx, HWorld& w, int k, int L, int fov, int uadb, int sym)
+{
+  const auto key = std::make_tuple(k, L, fov, uadb, sym);
+  if (w.refs.count(key)) return true;
+  std::string what;
+  auto m = make_rt(sym < 0 ? 0 : sym, 0, L, fov != 0);
+  if (uadb) m->set_use_actual_detector_boundaries(true);
+  if (small::throws([&] { m->set_up(w.b[k].pdi, w.b[k].im); }, &what)) return false;
+  HRefSet rs;
+  rs.ref.resize(w.cset.size());
+  rs.usable.assign(w.cset.size(), 0);
+  ProjMatrixElemsForOneBin raw;
+  bool ok = true;
+  for (size_t i = 0; i < w.cset.size() && ok; ++i)
+    {
+      if (!bin_in_range(*w.b[k].pdi, w.cset[i])) continue;
+      if (sym < 0 && g34::screen(*w.b[k].pdi, *w.b[k].im, w.cset[i], L, fov != 0, g34::screen_thr(w.delta[k]))) { ctx.count("history_bins_screened"); continue; }
+      if (small::throws([&] { m->get_proj_matrix_elems_for_one_bin(raw, w.cset[i]); }, &what)) { ok = false; break; }
+      rs.ref[i] = g34::to_row(raw);
+      rs.usable[i] = 1;
+    }
+  if (!ok) return false;
+  ctx.count("history_reference_sets");
+  w.refs[key] = rs;
+  return true;
 }
 
 static bool prepare_H(vmc::Ctx& ctx, HWorld& w)
@@ -335,34 +387,52 @@ static bool prepare_H(vmc::Ctx& ctx, HWorld& w)
     }
   for (int k = 0; k < 3; ++k)
     {
-      shared_ptr<ProjMatrixByBinUsingRayTracing> direct;
-      if (small::throws([&] { direct = small::direct_matrix(w.b[k].pdi, w.b[k].im, 1, true); }, &what)) { ctx.count("rejected_configs"); return false; }
+      if (small::throws([&] { w.b2[k] = g34::build(w.hs.g[k]); }, &what)) { ctx.count("rejected_configs"); return false; }
       w.delta[k] = g34::delta_of(*w.b[k].pdi, *w.b[k].im);
-      w.ref[k].resize(w.cset.size());
-      w.usable[k].assign(w.cset.size(), 0);
+      for (int L = 1; L <= 3; ++L)
+        for (int fov = 1; fov >= 0; --fov)
+          if (!make_refs(ctx, w, k, L, fov, 0, -1)) { ctx.count("rejected_configs"); return false; }
+      {
+        auto m = make_rt(0, 0, 1, true);
+        m->set_use_actual_detector_boundaries(true);
+        if (small::throws([&] { m->set_up(w.b[k].pdi, w.b[k].im); }, &what)) { ctx.count("rejected_configs"); return false; }
+        w.uadb_resets[k] = !m->get_use_actual_detector_boundaries();
+      }
+    }
+  // observation only (NOT part of the oracle): the class documentation says that using the matrix after a setter without set_up results in error().
+  // Histories therefore never do that; what actually happens is recorded.
+  if (w.cset.size() >= 2)
+    {
+      auto m = make_rt(w.hs.sym, 1, 1, true);
       ProjMatrixElemsForOneBin raw;
-      for (size_t i = 0; i < w.cset.size(); ++i)
+      bool t0 = true, t1 = true;
+      if (!small::throws([&] { m->set_up(w.b[0].pdi, w.b[0].im); m->get_proj_matrix_elems_for_one_bin(raw, w.cset[0]); m->set_num_tangential_LORs(2); }, &what))
         {
-          if (!bin_in_range(*w.b[k].pdi, w.cset[i])) continue;
-          if (g34::screen(*w.b[k].pdi, *w.b[k].im, w.cset[i], 1, true, g34::screen_thr(w.delta[k]))) { ctx.count("history_bins_screened"); continue; }
-          direct->get_proj_matrix_elems_for_one_bin(raw, w.cset[i]);
-          w.ref[k][i] = g34::to_row(raw);
-          w.usable[k][i] = 1;
+          t0 = small::throws([&] { m->get_proj_matrix_elems_for_one_bin(raw, w.cset[0]); }, &what);
+          t1 = small::throws([&] { m->get_proj_matrix_elems_for_one_bin(raw, w.cset[1]); }, &what);
+          ctx.count(t0 ? "probe_setter_without_set_up_cached_bin_error" : "probe_setter_without_set_up_cached_bin_row_returned");
+          ctx.count(t1 ? "probe_setter_without_set_up_uncached_bin_error" : "probe_setter_without_set_up_uncached_bin_row_returned");
+          if (!t0 && ctx.shard == 0 && w.hs.id == 0)
+            ctx.observe("set_up; get(b); set_num_tangential_LORs(2) WITHOUT set_up; get(b): the cached row is returned without error() (documentation: 'using the matrix will result in a call to error()'); a bin not in the cache "
+                        + std::string(t1 ? "raises the documented error" : "is computed without error") + ". Not demanded by C03, recorded only.");
         }
     }
   w.nget = (int)w.cset.size();
   for (auto& c : w.cset) w.opnames.push_back("get(" + small::bin_str(c) + ")");
   for (const char* n : { "clear_cache", "enable_cache(0)", "enable_cache(1)", "store_only_basic(0)", "store_only_basic(1)", "set_up(G0)", "set_up(G1)", "set_up(G2)" }) w.opnames.push_back(n);
+  for (int e = 0; e < N_EXT_OPS; ++e)
+    w.opnames.push_back(std::string(SETTER_NAME[e]) + (e < 3 ? "(" + vmc::str(e + 1) + ")" : "(!current)") + "+set_up(equal objects of current geometry)");
   return true;
 }
 
-static std::string hcase(const HWorld& w, const std::vector<int>& h) { return "part=H;id=" + vmc::str(w.hs.id) + ";h=" + vmc::join(h); }
+static std::string hcase(const HWorld& w, const std::vector<int>& h) { return "part=H;id=" + vmc::str(w.hs.id) + ";ic=" + vmc::str(w.init_cache) + ";h=" + vmc::join(h); }
 
 // canonical state of the matrix: current geometry, switches, cache content
 static std::string canon_matrix(const ProjMatrixByBinUsingRayTracing& m, int cur)
 {
   std::ostringstream o;
-  o << "g" << cur << (m.cache_disabled ? "D" : "E") << (m.cache_stores_only_basic_bins ? "B" : "A") << (m.already_setup ? "S" : "s") << "|";
+  o << "g" << cur << (m.cache_disabled ? "D" : "E") << (m.cache_stores_only_basic_bins ? "B" : "A") << (m.already_setup ? "S" : "s") << "L" << m.num_tangential_LORs << "f" << m.restrict_to_cylindrical_FOV << "u"
+    << m.use_actual_detector_boundaries << "y" << m.do_symmetry_90degrees_min_phi << m.do_symmetry_180degrees_min_phi << m.do_symmetry_swap_segment << m.do_symmetry_swap_s << m.do_symmetry_shift_z << "|";
   for (int v = m.cache_collection.get_min_index(); v <= m.cache_collection.get_max_index(); ++v)
     for (int s = m.cache_collection[v].get_min_index(); s <= m.cache_collection[v].get_max_index(); ++s)
       {
@@ -387,8 +457,11 @@ static std::string canon_matrix(const ProjMatrixByBinUsingRayTracing& m, int cur
 static std::string build_H(vmc::Ctx& ctx, HWorld& w, const std::vector<int>& h, std::string& ek, std::string& em, bool verbose)
 {
   ctx.current("part=H;matrix=raytracing", hcase(w, h));
-  auto m = make_rt(w.hs.sym, 2, 1, true); // the defaults: cache enabled, basic bins only
+  auto m = make_rt(w.hs.sym, w.init_cache, 1, true); // 2 = the defaults: cache enabled, basic bins only
   int cur = 0;
+  int sym = w.hs.sym, L = 1, fov = 1, uadb = 0; // reference model of the current settings
+  int last_setter = -1;                         // extended op index of the last setter;set_up before the current step
+  std::vector<char> requested(w.cset.size(), 0), requested_before_setter(w.cset.size(), 0);
   std::string what;
   auto names = [&](size_t upto) { std::string s; for (size_t i = 0; i <= upto && i < h.size(); ++i) s += w.opnames[h[i]] + "; "; return s; };
   if (small::throws([&] { m->set_up(w.b[0].pdi, w.b[0].im); }, &what)) { ek = "clause=history;step=initial_set_up_throws"; em = what; return ""; }
@@ -399,23 +472,38 @@ static std::string build_H(vmc::Ctx& ctx, HWorld& w, const std::vector<int>& h, 
       if (verbose) fprintf(stderr, "  step %zu: %s\n", i, w.opnames[op].c_str());
       if (op < w.nget)
         {
-          if (!w.usable[cur][op]) continue; // bin not part of the current geometry (or screened there): not requested
+          const int rsym = uadb ? sym : -1;
+          if (!make_refs(ctx, w, cur, L, fov, uadb, rsym)) { ctx.count("history_gets_without_reference"); continue; }
+          const HRefSet& rs = w.refs[std::make_tuple(cur, L, fov, uadb, rsym)];
+          if (!rs.usable[op]) continue; // bin not part of the current geometry (or screened there for the current settings): not requested
           const Bin& bin = w.cset[op];
           if (small::throws([&] { m->get_proj_matrix_elems_for_one_bin(raw, bin); }, &what))
             { ek = "clause=history;step=get_throws"; em = "history " + names(i) + ": " + what; return ""; }
           const Row row = g34::to_row(raw);
           ctx.count("history_rows_compared");
-          const double tol = 100 * w.delta[cur] * g34::row_max(w.ref[cur][op]);
+          if (last_setter >= 0)
+            {
+              ctx.count("history_rows_compared_after_setter");
+              ctx.count(requested_before_setter[op] ? "history_rows_after_setter_bin_requested_before_it" : "history_rows_after_setter_bin_not_requested_before_it");
+              if (uadb) ctx.count("history_rows_compared_with_actual_detector_boundaries");
+              if (rs.ref[op].size() > 1) ctx.nontrivial("H" + vmc::str(w.hs.id) + "|" + vmc::join(std::vector<int>(h.begin(), h.begin() + i + 1)));
+            }
+          requested[op] = 1;
+          const double tol = 100 * w.delta[cur] * g34::row_max(rs.ref[op]);
           std::string why;
           bool prev_setup = false, prev_other = false;
-          for (size_t j = 0; j < i; ++j) if (h[j] >= w.nget + 5) { prev_setup = true; if (h[j] - (w.nget + 5) != 0) prev_other = true; }
+          for (size_t j = 0; j < i; ++j) if (h[j] >= w.nget + 5 && h[j] < w.nget + N_BASE_OPS) { prev_setup = true; if (h[j] - (w.nget + 5) != 0) prev_other = true; }
           if (!bin_coords_equal(raw.get_bin(), bin)) { ek = "clause=history;what=bin_label"; em = "history " + names(i) + ": row labelled " + small::bin_str(raw.get_bin()); return ""; }
-          if (!g34::rows_equal(w.ref[cur][op], row, tol, &why))
+          if (!g34::rows_equal(rs.ref[op], row, tol, &why))
             {
-              ek = std::string("clause=history;what=row_differs_from_direct_row_of_current_geometry;after_set_up=") + (prev_other ? "other_geometry" : prev_setup ? "same_geometry" : "none")
-                   + ";current=G" + vmc::str(cur);
-              em = "history [" + names(i) + "] on geometry G" + vmc::str(cur) + " (" + w.hs.g[cur].str() + "): row of " + small::bin_str(bin) + " differs from the direct row of the currently set-up geometry: " + why
-                   + "  direct: " + g34::row_str(w.ref[cur][op]) + "  got: " + g34::row_str(row);
+              ek = std::string("clause=history;what=") + (uadb ? "row_differs_from_fresh_matrix_with_current_settings" : "row_differs_from_direct_row_of_current_geometry") + ";after_set_up="
+                   + (prev_other ? "other_geometry" : prev_setup ? "same_geometry" : "none") + ";current=G" + vmc::str(cur);
+              if (last_setter >= 0)
+                ek += std::string(";after_setter_and_set_up_same_geometry=") + SETTER_NAME[last_setter] + ";bin_requested_before_setter=" + vmc::str((int)requested_before_setter[op]);
+              em = "history [" + names(i) + "] on geometry G" + vmc::str(cur) + " (" + w.hs.g[cur].str() + "), current settings num_tangential_LORs=" + vmc::str(L) + " restrict_to_cylindrical_FOV=" + vmc::str(fov)
+                   + " use_actual_detector_boundaries=" + vmc::str(uadb) + " symmetry switches=" + vmc::str(sym) + ": row of " + small::bin_str(bin)
+                   + " differs from the row of a freshly built matrix (cache off" + (uadb ? "" : ", symmetries off") + ") with the current settings on the currently set-up geometry: " + why + "  fresh: "
+                   + g34::row_str(rs.ref[op]) + "  got: " + g34::row_str(row);
               return "";
             }
         }
@@ -430,15 +518,43 @@ static std::string build_H(vmc::Ctx& ctx, HWorld& w, const std::vector<int>& h, 
             case 2: m->enable_cache(true); break;
             case 3: m->store_only_basic_bins_in_cache(false); break;
             case 4: m->store_only_basic_bins_in_cache(true); break;
-            default:
+            case 5: case 6: case 7:
               threw = small::throws([&] { m->set_up(w.b[o - 5].pdi, w.b[o - 5].im); }, &what);
               cur = o - 5;
               break;
+            default:
+              {
+                // a configuration setter on the used matrix, then set_up with equal (separately built) objects of the current geometry
+                const int e = o - N_BASE_OPS;
+                if (e < 3) { L = e + 1; m->set_num_tangential_LORs(L); }
+                else if (e == 3) { fov = !fov; m->set_restrict_to_cylindrical_FOV(fov != 0); }
+                else if (e == 4) { uadb = !uadb; m->set_use_actual_detector_boundaries(uadb != 0); }
+                else
+                  {
+                    const int bit = 1 << (e - 5);
+                    sym ^= bit;
+                    const bool v = (sym & bit) != 0;
+                    switch (e - 5)
+                      {
+                      case 0: m->set_do_symmetry_90degrees_min_phi(v); break;
+                      case 1: m->set_do_symmetry_180degrees_min_phi(v); break;
+                      case 2: m->set_do_symmetry_swap_segment(v); break;
+                      case 3: m->set_do_symmetry_swap_s(v); break;
+                      default: m->set_do_symmetry_shift_z(v); break;
+                      }
+                  }
+                threw = small::throws([&] { m->set_up(w.b2[cur].pdi, w.b2[cur].im); }, &what);
+                last_setter = e;
+                requested_before_setter = requested;
+                ctx.count("history_setter_then_set_up_steps");
+              }
+              break;
             }
+          if (o >= 5 && uadb && w.uadb_resets[cur]) uadb = 0; // set_up resets the switch for compressed data (documented by a warning), as in a fresh matrix
           if (threw) { ek = "clause=history;step=set_up_throws"; em = "history " + names(i) + ": " + what; return ""; }
         }
     }
-  return canon_matrix(*m, cur);
+  return canon_matrix(*m, cur) + "M" + vmc::str(sym) + "," + vmc::str(L) + "," + vmc::str(fov) + "," + vmc::str(uadb);
 }
 
 static void run_H(vmc::Ctx& ctx, const HSearch& hs, uint64_t& unit)
@@ -446,41 +562,68 @@ static void run_H(vmc::Ctx& ctx, const HSearch& hs, uint64_t& unit)
   HWorld w; w.hs = hs;
   const bool replay = ctx.replaying();
   if (!prepare_H(ctx, w)) { return; }
-  const int nops = (int)w.opnames.size();
+  const int nops_all = (int)w.opnames.size();
   if (replay)
     {
       auto m = vmc::kv(ctx.replay);
       std::vector<int> h = vmc::ints(m["h"]);
+      if (m.count("ic")) w.init_cache = atoi(m["ic"].c_str());
       std::string ek, em;
       fprintf(stderr, "replaying history search %d: G0=%s G1=%s G2=%s sym=%d\n", hs.id, hs.g[0].str().c_str(), hs.g[1].str().c_str(), hs.g[2].str().c_str(), hs.sym);
       build_H(ctx, w, h, ek, em, true);
       if (!ek.empty()) ctx.violation(ek + ";sym=" + vmc::str(hs.sym), hcase(w, h), em);
       return;
     }
-  std::set<std::string> outcomes;
+  // passes: (alphabet, depth, initial cache mode).  base = gets + cache operations + set_up(G0|G1|G2); full = base + the 10 setter;set_up operations;
+  // setters = gets + the 10 setter;set_up operations.  A pass contained in another one of the same search is not run.
+  struct Pass { const char* tag; std::vector<int> alpha; int depth; int init_cache; };
+  std::vector<Pass> passes;
+  {
+    std::vector<int> base, fullv, setters;
+    for (int o = 0; o < nops_all; ++o)
+      {
+        fullv.push_back(o);
+        if (o < nops_all - N_EXT_OPS) base.push_back(o);
+        if (o < w.nget || o >= nops_all - N_EXT_OPS) setters.push_back(o);
+      }
+    if (hs.depth > hs.full_depth) passes.push_back({ "base", base, hs.depth, 2 });
+    if (hs.full_depth > 0) passes.push_back({ "full", fullv, hs.full_depth, 2 });
+    if (hs.setters_depth > hs.full_depth) passes.push_back({ "setters", setters, hs.setters_depth, 2 });
+    if (hs.setters_depth_all_bins > 0) passes.push_back({ "setters_cache_all_bins", setters, hs.setters_depth_all_bins, 1 });
+  }
+  for (const Pass& P : passes)
+  {
+  const int nops = (int)P.alpha.size();
+  const int depth = P.depth;
+  const bool ext = P.alpha.size() != (size_t)(nops_all - N_EXT_OPS);
+  w.init_cache = P.init_cache;
   for (int first = 0; first < nops; ++first, ++unit)
     {
       if (!ctx.mine(unit)) continue;
       if (ctx.expired()) return;
       vmc::HistSearch s;
-      s.nops = nops; s.max_depth = hs.depth - 1;
+      s.nops = nops; s.max_depth = depth - 1;
       s.expired = [&] { return ctx.expired(); };
-      auto full = [&](const std::vector<int>& h) { std::vector<int> f; f.push_back(first); f.insert(f.end(), h.begin(), h.end()); return f; };
+      auto full = [&](const std::vector<int>& h) { std::vector<int> f; f.push_back(P.alpha[first]); for (int o : h) f.push_back(P.alpha[o]); return f; };
       s.build = [&](const std::vector<int>& h, std::string& ek, std::string& em) { return build_H(ctx, w, full(h), ek, em, false); };
       s.on_violation = [&](const std::vector<int>& h, const std::string& k, const std::string& m) { ctx.violation(k + ";sym=" + vmc::str(hs.sym), hcase(w, full(h)), m); };
       s.on_state = [&](const std::vector<int>& h, const std::string& c) {
         ctx.digest(c);
-        if (ctx.samples.size() < 6 && (int)h.size() + 1 == hs.depth && c.size() > 12)
-          { std::string n; for (int o : full(h)) n += w.opnames[o] + "; "; ctx.sample("H" + vmc::str(hs.id) + ": " + n + "=> " + c.substr(0, 100)); }
+        if (ctx.samples.size() < 6 && (int)h.size() + 1 == depth && c.size() > 12 && (!ext || P.alpha[first] >= nops_all - N_EXT_OPS || ctx.samples.size() < 3))
+          { std::string n; for (int o : full(h)) n += w.opnames[o] + "; "; ctx.sample("H" + vmc::str(hs.id) + " (initial cache mode " + CACHE_NAME[P.init_cache] + "): " + n + "=> " + c.substr(0, 100)); }
       };
       vmc::HistResult r = s.run();
       ctx.count("states", r.states);
       ctx.count("transitions", r.transitions + 1);
       ctx.count("traces_validated_against_impl", r.executions);
+      if (ext) { ctx.count("states_in_searches_with_setters", r.states); ctx.count("transitions_in_searches_with_setters", r.transitions + 1); }
       if (!r.complete) ctx.exhaustive = false;
-      else ctx.maxi("history_depth_completed", hs.depth);
+      else ctx.maxi(std::string("history_depth_completed_alphabet_") + P.tag, depth);
+      if (r.complete && !ext) ctx.maxi("history_depth_completed", depth);
     }
-  ctx.maxi("history_alphabet_size", nops);
+  ctx.maxi(std::string("history_alphabet_size_") + P.tag, nops);
+  if (!ext) ctx.maxi("history_alphabet_size", nops);
+  }
   ctx.count("history_searches");
 }
 
@@ -545,7 +688,10 @@ static std::vector<HSearch> searches(bool thorough)
 {
   std::vector<HSearch> v;
   auto G = [](int D, int R, int span, int nz, int nxy, int vxy = 100, int zd = 2) { Geo g; g.D = D; g.R = R; g.span = span; g.nz = nz; g.nxy = nxy; g.vxy = vxy; g.zd = zd; return g; };
-  auto add = [&](int sym, Geo g0, Geo g1, Geo g2, int depth) { HSearch s; s.id = (int)v.size(); s.sym = sym; s.g[0] = g0; s.g[1] = g1; s.g[2] = g2; s.depth = depth; v.push_back(s); };
+  auto add = [&](int sym, Geo g0, Geo g1, Geo g2, int depth) { HSearch s; s.id = (int)v.size(); s.sym = sym; s.g[0] = g0; s.g[1] = g1; s.g[2] = g2; s.depth = depth;
+    // quick: gets + setters to depth 3 from a matrix caching basic bins only / all bins, first search only; thorough: every search, full alphabet to depth 4 (contains the former) and the all-bins variant to depth 3
+    s.full_depth = thorough ? 4 : 0; s.setters_depth = (thorough || v.empty()) ? 3 : 0; s.setters_depth_all_bins = (thorough || v.empty()) ? 3 : 0;
+    v.push_back(s); };
   const int d = thorough ? 5 : 4;
   // G1: other projection data (more rings) ; G2: same projection data and voxel size, other number of planes / xy size
   add(31, G(8, 2, 1, 0, 0), G(8, 3, 1, 0, 0), G(8, 2, 1, 5, 0), d);
@@ -565,7 +711,13 @@ int main(int argc, char** argv)
   small::quiet();
   ctx.rule = "E: (scanner, sampling, image grid) x num_tangential_LORs x FOV shape x 2^5 symmetry switches x 3 cache modes x ALL bins (x 2 request passes when caching): each row compared with the row "
              "of the same class with symmetries and cache off; non-trivial = row obtained through a non-trivial SymmetryOperation and non-empty (distinct by configuration+bin). "
-             "H: BFS over request histories (get(colliding bins), clear_cache, enable_cache, store_only_basic_bins_in_cache, set_up(G0|G1|G2)) replayed on a fresh matrix; state = (geometry, switches, cache keys+content)";
+             "H: BFS over request histories (get(colliding bins), clear_cache, enable_cache, store_only_basic_bins_in_cache, set_up(G0|G1|G2), and - re-configuration of a used matrix - each of the 8 configuration setters of "
+             "ProjMatrixByBinUsingRayTracing (number of tangential LORs 1|2|3, cylindrical FOV, actual detector boundaries, 5 symmetry switches) followed by set_up with equal objects of the current geometry) replayed on a fresh "
+             "matrix, every returned row compared with the row of a freshly built matrix with the current settings and the cache off; state = (geometry, all switches and settings, cache keys+content); "
+             "non-trivial history = one that compares a row with more than one element after a setter";
+  ctx.assume("the setters of ProjMatrixByBinUsingRayTracing are documented as 'call set_up afterwards, otherwise error()': histories call set_up with the current geometry directly after each of them; enable_cache / "
+             "store_only_basic_bins_in_cache carry no such requirement and occur with and without a following set_up");
+  ctx.assume("while use_actual_detector_boundaries is in effect the tie screen (derived from the bin centre coordinates) does not apply: the reference is then a fresh matrix with the same symmetry switches (identical computation, cache off)");
   ctx.assume("row comparison after sorting: values agree within 100*delta*(row maximum), delta = 16*eps_float*(ring radius / voxel size xy); elements below that may be present or absent (DESIGN 5.C03)");
   ctx.assume("bins with a ray end point (or grid-parallel coordinate) within max(100*delta, 0.003) voxels of a voxel boundary (0.003 > 1e-4 * longest path in voxels: the ray tracer ends at 0.9999 of the last exit) or of one of the implementation's documented decision thresholds are excluded by a screen computed "
              "in double from (s, phi, t, tan(theta), grid) only; a configuration with > 10 % screened bins is vacuous: not counted as checked, listed in the observations; any such configuration in the quick tier or (25 % in thorough) > 10 % of them in a thorough shard is a violation");
